@@ -241,6 +241,68 @@ theorem C05_fixpoint_unique {g : GrammarSpec} {r : Reg} {d d' : DistTable}
       omega
     · omega
 
+/-! ### 5. Recursion = a cycle of the successor graph -/
+
+/-- Whatever the fuel: a symbol reported recursive lies on a cycle of `succs`. -/
+theorem C05_recursive_sound (g : GrammarSpec) (r : Reg) (s : Sym) :
+    isRecursive g r s = true → ReachPlus g r s s := by
+  intro h
+  have hm : s ∈ reachFrom g r (r.allNodes.length + 1) [s] [] := by
+    simpa [isRecursive] using h
+  exact reachFrom_sound g r s _ _ _ (by intro y hy; simp at hy; exact .inl hy.symm)
+    (by intro y hy; simp at hy) s hm
+
+/-- A registered symbol is reported recursive exactly when there is a non-empty path
+`s → … → s` along `succs` — provided the registered symbols are closed under `succs` (then the
+fuel `allNodes.length + 1` of the closure is enough: `reachFrom_complete`). -/
+theorem C05_recursive_iff_cycle {g : GrammarSpec} {r : Reg} (hcl : ClosedNodes g r)
+    {s : Sym} (hs : s ∈ r.allNodes) :
+    isRecursive g r s = true ↔ ReachPlus g r s s := by
+  have hU : ∀ x, ReachPlus g r s x → x ∈ r.allNodes := fun x hx => hx.mem_of_closed hcl hs
+  rw [← mem_reachFrom_iff hU s]
+  simp [isRecursive]
+
+/-- The `recursive` list of the analysed grammar. -/
+theorem C05_analyse_recursive (g : GrammarSpec) (hcl : ClosedNodes g (analyse g).reg) (s : Sym) :
+    s ∈ (analyse g).recursive ↔ s ∈ (analyse g).reg.allNodes ∧ ReachPlus g (analyse g).reg s s := by
+  show s ∈ List.filter _ _ ↔ _
+  rw [List.mem_filter]
+  constructor
+  · rintro ⟨h1, h2⟩; exact ⟨h1, (C05_recursive_iff_cycle hcl h1).1 h2⟩
+  · rintro ⟨h1, h2⟩; exact ⟨h1, (C05_recursive_iff_cycle hcl h1).2 h2⟩
+
+/-! ### 6. The reachable classes -/
+
+/-- Whatever the fuel: every class `usable_grammar` keeps is reachable from the start symbol. -/
+theorem C05_reachable_classes_sound (g : Grammar) (n : Nat) :
+    n ∈ reachableClasses g → Reach g.spec g.reg (.cls g.spec.start) (.cls n) := by
+  intro h
+  simp only [reachableClasses, List.mem_filterMap] at h
+  obtain ⟨s, hs, hsn⟩ := h
+  have : s = .cls n := by
+    cases s <;> simp at hsn
+    rw [hsn]
+  subst this
+  rcases mem_addAll.1 hs with h | h
+  · left; exact (List.mem_singleton.1 h).symm
+  · right
+    exact reachFrom_sound g.spec g.reg _ _ _ _ (by intro y hy; simp at hy; exact .inl hy.symm)
+      (by intro y hy; simp at hy) _ h
+
+/-- The classes `usable_grammar` re-extracts with are exactly the classes reachable (in zero or
+more steps) from the start symbol, when the registered symbols are closed under `succs`. -/
+theorem C05_usable_contains_reachable (g : Grammar) (hcl : ClosedNodes g.spec g.reg)
+    (hs : Sym.cls g.spec.start ∈ g.reg.allNodes) (n : Nat) :
+    n ∈ reachableClasses g ↔ Reach g.spec g.reg (.cls g.spec.start) (.cls n) := by
+  refine ⟨C05_reachable_classes_sound g n, fun h => ?_⟩
+  have hU : ∀ x, ReachPlus g.spec g.reg (.cls g.spec.start) x → x ∈ g.reg.allNodes :=
+    fun x hx => hx.mem_of_closed hcl hs
+  simp only [reachableClasses, List.mem_filterMap]
+  refine ⟨.cls n, mem_addAll.2 ?_, rfl⟩
+  rcases h with h | h
+  · left; simp at h; simp [h]
+  · right; exact (mem_reachFrom_iff hU _).2 h
+
 /-! ### Non-vacuity -/
 
 /-- `Expr ::= Lit(v : int) | Add(l : Expr, r : Expr) | Neg(x : Annotated[Expr, …]) |
@@ -283,6 +345,13 @@ example : AltsRanked (analyse (exSpec false)).reg exRank := by
     rename_i h0; have : n = 0 := (beq_iff_eq.1 h0).symm
     rcases hp with rfl | rfl | rfl | rfl | rfl <;> simp [exRank, this]
   · cases h
+
+/-- closure of the registered symbols; `Add`, `Neg`, `Pair`, `U` and `Expr` lie on cycles, `Lit`
+does not; the unreachable class is not kept -/
+example : ClosedNodes (exSpec false) (analyse (exSpec false)).reg ∧
+    Sym.cls (exSpec false).start ∈ (analyse (exSpec false)).reg.allNodes ∧
+    (analyse (exSpec false)).recursive = [.cls 0, .cls 2, .cls 3, .cls 4, .cls 5] ∧
+    reachableClasses (analyse (exSpec false)) = [0, 1, 2, 3, 4, 5] := by decide
 
 /-- a derivable program with an empty-list-free value, and its cost in both modes -/
 example : DerivesK (exSpec true) (analyse (exSpec true)).reg (.cls 0) (.node 1 0 0 [.int 7]) 3 := by
